@@ -97,11 +97,12 @@ CHECKS["C14"] = dict(
               "loop, hand-fed StreamReader); recorded histories validated by TLC (IpcCallTrace.tla)",
     text="All interleavings of up to 3 concurrent calls (is_open check, registration, scheduling as separate steps), responses "
          "in any order, connection loss at any point incl. inside a response frame, and caller registrations in the middle of "
-         "the listener's cleanup are explored on the model; thousands of them run on the real code; a caller still inside "
-         "call() when the virtual system is quiescent is a hang.",
+         "the listener's cleanup, a drain() that waits for the transport, one caller running close() and close requests from the peer "
+         "are explored on the model; thousands of them run on the real code; a caller still inside call() when the virtual system is "
+         "quiescent is a hang.",
     note="Trusted: TLC, harness/vloop.py + sched.py, the FOR_ITER criterion for where a thread switch can fall inside a loop over "
-         "pending_responses. close()/server-shutdown handshakes and server-side evaluation failures (they tear the connection "
-         "down = PCut) are not separate actions yet. Bounds: 3 callers, one call each.",
+         "pending_responses. conn_provider.close() and the server side of the shutdown handshake are not modelled; a server-side "
+         "evaluation failure tears the connection down (= PCut). Bounds: 3 callers, one call each.",
     design_ref="DESIGN.md section 5 C14")
 
 CHECKS["C20"] = dict(
@@ -136,12 +137,12 @@ CHECKS["C02"] = dict(
               "the verb) evaluated by TLC over adverb x verb x operand cases (KgAdvCases.tla); each case replayed as source "
               "into KlongInterpreter and compared structurally",
     text="The specification knows no shortcut: f/a is the left fold of plain applications, f\\a its prefixes, f'a the map, and so on "
-         "for 15 adverb forms incl. the atom / single-element / empty / string cases and two-adverb chains; verbs are operators, "
+         "for all 16 adverbs (17 forms, incl. While / Scan-While with two verbs) incl. the atom / single-element / empty / string cases and two-adverb chains; verbs are operators, "
          "lambdas (non-commutative, non-associative), a projection and Python callables. TLC evaluates ~9k (thorough ~25k) "
          "cases; the implementation, with all its operator shortcuts (ufunc.reduce/accumulate ...), must agree on each.",
     note="Trusted: TLC, the transcription, canon/render. Open findings F-C02-* (matched by form / verb / operand class / difference "
-         "class) cover the listed deviations; anything else is a VIOLATION. While / Scan-While and dictionary operands are not "
-         "enumerated yet; a list as neutral element of a f/b, a f\\b is outside the judged domain (the reference gives two "
+         "class) cover the listed deviations; anything else is a VIOLATION. Each case also runs with its operands held by variables of a long-lived "
+         "interpreter and as a function body called twice (operands must stay unchanged). Dictionary operands of Each are C10's; a list as neutral element of a f/b, a f\\b is outside the judged domain (the reference gives two "
          "non-equivalent descriptions).",
     design_ref="DESIGN.md section 5 C02")
 
